@@ -1,17 +1,271 @@
 /-
 C10 — Algebraic rewrites preserve meaning.  PROPERTY THEOREMS ONLY (helper lemmas live in
-`Rooc/Proofs`).  `K` is any linearly ordered field (so in particular ℝ); expressions carry literals
-in `Ext K` (IEEE special values, exact arithmetic); `Sem.eval ρ e = some v` means "defined with value v".
+`Rooc/Proofs/ExpLemmas*.lean`).  `K` is any linearly ordered field (so in particular ℝ and ℚ);
+expressions carry literals in `Ext K` (IEEE special values, exact arithmetic, no signed zero);
+`Sem.eval ρ e = some v` means "defined at the assignment ρ with value v" (`none` = a division by
+zero, a non-finite literal or an empty min/max somewhere in the tree — `eval` does not short-circuit).
+
+The model functions `Exp.simplify` / `Exp.flattenF` are the ones the correspondence check diffs
+against the Rust `Exp::simplify` / `Exp::flatten`.
 -/
 import Rooc.Sem
 import Rooc.Proofs.Field
+import Rooc.Proofs.ExpLemmas
+import Rooc.Proofs.ExpLemmasFlatten
+import Rooc.Proofs.ExpLemmasNF
+import Rooc.Proofs.ExpLemmasSound
+import Rooc.Proofs.ExpLemmasDiv
+import Rooc.Proofs.ExpLemmasTruth
 namespace Rooc.Props.C10
 open Rooc Rooc.Exp Rooc.Sem
 
 variable {K : Type} [Field K] [LinearOrder K] [IsStrictOrderedRing K] [FloorRing K]
 
-/-- A literal is its own simplification (base case; the full statements follow). -/
+/-- A literal is its own simplification. -/
 theorem simplify_num (x : Ext K) : simplify (.num x : Exp (Ext K)) = .num x := by
   simp [simplify]
+
+/-! ## flatten -/
+
+/-- FULL. `flatten` preserves the denotation exactly, whatever fuel the model was given: same
+definedness and same value at every assignment. -/
+theorem flatten_eval_eq (n : Nat) (ρ : String → K) (e e' : Exp (Ext K))
+    (h : flattenF n e = some e') : eval ρ e' = eval ρ e :=
+  flattenF_eval ρ n e e' h
+
+/-- FULL. Flattening never changes the value of a defined expression. -/
+theorem flatten_sound (n : Nat) (ρ : String → K) (e e' : Exp (Ext K)) (v : K)
+    (h : flattenF n e = some e') (hv : eval ρ e = some v) : eval ρ e' = some v := by
+  rw [flatten_eval_eq n ρ e e' h]; exact hv
+
+/-- FULL. Converse: flattening never turns an undefined expression into a defined one (it neither
+creates nor removes a division by zero). -/
+theorem flatten_sound_conv (n : Nat) (ρ : String → K) (e e' : Exp (Ext K)) (v : K)
+    (h : flattenF n e = some e') (hv : eval ρ e' = some v) : eval ρ e = some v := by
+  rw [← flatten_eval_eq n ρ e e' h]; exact hv
+
+/-- FULL. The Rust recursion (which re-enters on a larger term after distributing) terminates:
+the polynomial interpretation `fsize` strictly decreases along every recursive call, so fuel
+`fsize e` is enough.  Holds for every number type. -/
+theorem flatten_fuel_bound {α : Type} (e : Exp α) (n : Nat) (h : fsize e ≤ n) :
+    (flattenF n e).isSome :=
+  flattenF_isSome_of_fsize_le n e h
+
+theorem flatten_fuel_suffices {α : Type} (e : Exp α) : ∃ n, (flattenF n e).isSome :=
+  ⟨fsize e, flatten_fuel_bound e _ (Nat.le_refl _)⟩
+
+/-- non-vacuity: `(x + y) * z` is really distributed, with the same value. -/
+example : flattenF 10 (.bin .mul (.bin .add (.var "x") (.var "y")) (.var "z") : Exp (Ext K)) =
+    some (.bin .add (.bin .mul (.var "x") (.var "z")) (.bin .mul (.var "y") (.var "z"))) := by
+  simp [flattenF, flattenF.flattenMulRest, isAddSub]
+
+example (ρ : String → K) :
+    eval ρ (.bin .add (.bin .mul (.var "x") (.var "z")) (.bin .mul (.var "y") (.var "z"))) =
+      some ((ρ "x" + ρ "y") * ρ "z") := by
+  simp [eval, binVal]; ring
+
+/-! ## simplify: value preservation -/
+
+/-- PARTIAL. Simplification preserves the value of every defined expression in which the operands
+of and/or nodes are 0/1-valued at the assignment (`LogicOperands01`, the Prop version of
+`Oracle.logicOperands01`).  Without the hypothesis the statement is false:
+`simplify_counterexample`. -/
+theorem simplify_sound_partial (ρ : String → K) (e : Exp (Ext K)) (v : K)
+    (h01 : LogicOperands01 ρ e) (hv : eval ρ e = some v) : eval ρ (simplify e) = some v :=
+  (simplify_sound_aux ρ e h01 v hv).1
+
+/-- FULL (auxiliary). The hypothesis is itself preserved by simplification of a defined expression,
+so `simplify_sound_partial` composes with later rewrites. -/
+theorem simplify_preserves_logicOperands01 (ρ : String → K) (e : Exp (Ext K)) (v : K)
+    (h01 : LogicOperands01 ρ e) (hv : eval ρ e = some v) : LogicOperands01 ρ (simplify e) :=
+  (simplify_sound_aux ρ e h01 v hv).2
+
+/-- The genuine defect that forces the hypothesis: `x and 1` is rewritten to `x`, so at `x = 2`
+the value changes from 1 to 2. -/
+theorem simplify_counterexample :
+    ∃ (e : Exp (Ext K)) (ρ : String → K),
+      eval ρ e = some 1 ∧ eval ρ (simplify e) = some 2 ∧ (1 : K) ≠ 2 ∧ ¬ LogicOperands01 ρ e := by
+  refine ⟨.and [.var "x", .num (.fin 1)], fun _ => 2, ?_, ?_, by norm_num, ?_⟩
+  · simp [eval, evalList, truthy_eq]
+  · simp [simplify, naryCore, naryFlatten, naryScan, numTruthy, eval]
+  · simp [LogicOperands01, LogicOperands01List, Is01, eval]
+
+/-- the same defect through the binary spelling and for `or`: `x or 0 ↦ x`. -/
+theorem simplify_counterexample_or :
+    ∃ (e : Exp (Ext K)) (ρ : String → K),
+      eval ρ e = some 1 ∧ eval ρ (simplify e) = some 2 := by
+  refine ⟨.bin .or (.var "x") (.num (.fin 0)), fun _ => 2, ?_, ?_⟩
+  · simp [eval, binVal, truthy_eq]
+  · simp [simplify, naryCore, naryFlatten, naryScan, numTruthy, eval]
+
+/-- The converse of value preservation is false as well: simplification can turn an expression
+that is undefined at every assignment into a defined one (`0 * (x / 0) ↦ 0`). -/
+theorem simplify_defines_undefined_counterexample :
+    ∃ e : Exp (Ext K), (∀ ρ : String → K, eval ρ e = none) ∧
+      ∀ ρ : String → K, eval ρ (simplify e) = some 0 := by
+  refine ⟨.bin .mul (.num (.fin 0)) (.bin .div (.var "x") (.num (.fin 0))), ?_, ?_⟩
+  · intro ρ; simp [eval, binVal]
+  · intro ρ; simp [simplify, mulCore, divCore, isNumEq, eval]
+
+/-- non-vacuity of `simplify_sound_partial`: the hypothesis holds for an expression with an `and`
+node that `simplify` really rewrites. -/
+example : ∃ (e : Exp (Ext K)) (ρ : String → K) (v : K),
+    LogicOperands01 ρ e ∧ eval ρ e = some v ∧ simplify e ≠ e := by
+  refine ⟨.and [.var "x", .num (.fin 1)], fun _ => 1, 1, ?_, ?_, ?_⟩
+  · simp [LogicOperands01, LogicOperands01List, Is01, eval]
+  · simp [eval, evalList, truthy_eq]
+  · simp [simplify, naryCore, naryFlatten, naryScan, numTruthy]
+
+/-! ## simplify: what holds in logical positions (truth values) -/
+
+/-- PARTIAL, strictly stronger than `simplify_sound_partial`: only the and/or nodes standing in an
+*exact* position (root, operand of + - * / abs min max neg) need 0/1-valued operands; and/or nodes
+below not/xor/implies/iff/and/or are unconstrained (`ExactOK`, see `ExpLemmasTruth`). -/
+theorem simplify_sound_exact_partial (ρ : String → K) (e : Exp (Ext K)) (v : K)
+    (h : ExactOK ρ e) (hv : eval ρ e = some v) : eval ρ (simplify e) = some v :=
+  ((simplify_two_sorted ρ e).1 h v hv).1
+
+/-- `LogicOperands01` implies `ExactOK`. -/
+theorem exactOK_of_logicOperands01 (ρ : String → K) (e : Exp (Ext K))
+    (h : LogicOperands01 ρ e) : ExactOK ρ e := ExactOK_of_LogicOperands01 ρ e h
+
+/-- PARTIAL. Read as a formula, an expression keeps its truth value (and its definedness) under
+`simplify` whenever the and/or nodes that stand in exact positions strictly below it have 0/1
+operands (`TruthOK`); and/or nodes at the root and below logical connectives are unconstrained. -/
+theorem simplify_preserves_truthiness_partial (ρ : String → K) (e : Exp (Ext K)) (v : K)
+    (h : TruthOK ρ e) (hv : eval ρ e = some v) :
+    ∃ w, eval ρ (simplify e) = some w ∧ truthy w = truthy v := by
+  obtain ⟨w, h1, h2, _⟩ := (simplify_two_sorted ρ e).2 h v hv
+  exact ⟨w, h1, h2⟩
+
+/-- FULL for the decidable, assignment-independent class `truthShape` (no and/or node in an exact
+position strictly below the root — e.g. every pure propositional formula over arithmetic atoms):
+at EVERY assignment the truth value is preserved, with no hypothesis on the values. -/
+theorem simplify_preserves_truthiness_shape (e : Exp (Ext K)) (hs : truthShape e = true)
+    (ρ : String → K) (v : K) (hv : eval ρ e = some v) :
+    ∃ w, eval ρ (simplify e) = some w ∧ truthy w = truthy v :=
+  simplify_preserves_truthiness_partial ρ e v ((OK_of_shape ρ e).2 hs) hv
+
+/-- FULL for the decidable class `exactShape` (no and/or node in an exact position at all): the
+value is preserved at every assignment. -/
+theorem simplify_sound_shape (e : Exp (Ext K)) (hs : exactShape e = true)
+    (ρ : String → K) (v : K) (hv : eval ρ e = some v) : eval ρ (simplify e) = some v :=
+  simplify_sound_exact_partial ρ e v ((OK_of_shape ρ e).1 hs) hv
+
+/-- Outside these classes even the truth value changes: `(x and 1) + 1` is rewritten to `x + 1`;
+at `x = -1` the value goes from 2 (true) to 0 (false). -/
+theorem simplify_truthiness_counterexample :
+    ∃ (e : Exp (Ext K)) (ρ : String → K),
+      eval ρ e = some 2 ∧ eval ρ (simplify e) = some 0 ∧
+        truthy (2 : K) = true ∧ truthy (0 : K) = false ∧ truthShape e = false := by
+  refine ⟨.bin .add (.and [.var "x", .num (.fin 1)]) (.num (.fin 1)), fun _ => -1, ?_, ?_, ?_, ?_, ?_⟩
+  · simp [eval, evalList, binVal, truthy_eq]; norm_num
+  · simp [simplify, naryCore, naryFlatten, naryScan, numTruthy, addCore, eval, binVal]
+  · simp [truthy_eq]
+  · simp [truthy_eq]
+  · simp [truthShape, exactShape, isXorLike, isAndOr]
+
+/-- non-vacuity: `not ((x and 1) or y)` has non-0/1 and/or operands (so `LogicOperands01` fails at
+x = 2) but is in both classes. -/
+example : exactShape (.not (.or [.and [.var "x", .num (.fin 1)], .var "y"]) : Exp (Ext K)) = true ∧
+    ¬ LogicOperands01 (fun _ => (2 : K)) (.not (.or [.and [.var "x", .num (.fin 1)], .var "y"])) := by
+  constructor
+  · simp [exactShape, truthShape, truthShapeList]
+  · simp [LogicOperands01, LogicOperands01List, Is01, eval]
+
+/-! ## simplify: idempotence -/
+
+/-- FULL. `simplify` is idempotent — for every number type (so also at `Float`, NaN and `-0.0`
+included: the argument is purely structural).  This is what justifies the model applying the
+node-level step where the Rust re-enters `simplify` on freshly simplified children. -/
+theorem simplify_idem_any {α : Type} [Arith α] (e : Exp α) : simplify (simplify e) = simplify e :=
+  simplify_simplify e
+
+theorem simplify_idem (e : Exp (Ext K)) : simplify (simplify e) = simplify e :=
+  simplify_simplify e
+
+/-- FULL. The output of `simplify` is in the normal form `NF` (children in normal form, no literal
+/ same-kind child / short n-ary node, no rule applicable), and normal forms are fixed points. -/
+theorem simplify_normal_form {α : Type} [Arith α] (e : Exp α) : NF (simplify e) := NF_simplify e
+theorem simplify_fixes_normal_form {α : Type} [Arith α] (e : Exp α) (h : NF e) : simplify e = e :=
+  simplify_of_NF e h
+
+/-- FULL. The shortcut of the model, stated literally: what the Rust computes for a binary
+and/or/xor/implies/iff (`Exp::And(vec![lhs.simplify(), rhs.simplify()]).simplify()` …) is what the
+model computes. -/
+theorem simplify_reenter_and {α : Type} [Arith α] (l r : Exp α) :
+    simplify (.and [simplify l, simplify r]) = simplify (.bin .and l r) := by
+  rw [simplify_and, simplify_bin]; simp [binCore, simplify_simplify]
+theorem simplify_reenter_or {α : Type} [Arith α] (l r : Exp α) :
+    simplify (.or [simplify l, simplify r]) = simplify (.bin .or l r) := by
+  rw [simplify_or, simplify_bin]; simp [binCore, simplify_simplify]
+theorem simplify_reenter_xor {α : Type} [Arith α] (l r : Exp α) :
+    simplify (.xor (simplify l) (simplify r)) = simplify (.bin .xor l r) := by
+  rw [simplify_xor, simplify_bin]; simp [binCore, simplify_simplify]
+theorem simplify_reenter_implies {α : Type} [Arith α] (l r : Exp α) :
+    simplify (.implies (simplify l) (simplify r)) = simplify (.bin .implies l r) := by
+  rw [simplify_implies, simplify_bin]; simp [binCore, simplify_simplify]
+theorem simplify_reenter_iff {α : Type} [Arith α] (l r : Exp α) :
+    simplify (.iff (simplify l) (simplify r)) = simplify (.bin .iff l r) := by
+  rw [simplify_iff, simplify_bin]; simp [binCore, simplify_simplify]
+
+/-- non-vacuity: a term that is not a fixed point, so idempotence says something. -/
+example : simplify (.bin .add (.var "x") (.num (.fin 0)) : Exp (Ext K)) = .var "x" := by
+  simp [simplify, addCore]
+example : NF (.and [.var "x", .var "y"] : Exp (Ext K)) := by
+  simp [NF, NFList, isNum, isSameKind, isAndNode]
+
+/-! ## simplify: divisions -/
+
+/-- PARTIAL. "A division by zero is never rewritten away" holds for *protected* divisions: if `e`
+contains a division whose divisor simplifies to the literal zero, and no operand of a `*`, `and`,
+`or` node on the path from the root simplifies to that node's absorbing constant (`ProtDiv`), then
+`simplify e` still contains a division by the literal zero.  Unprotected divisions are erased:
+`div_erased_counterexample`. -/
+theorem div_preserved_partial (e : Exp (Ext K)) (h : ProtDiv zeroDivisor e) :
+    HasDivBy zeroDivisor (simplify e) := by
+  refine HasDivBy_simplify (p := zeroDivisor) ?_ ?_ e h
+  · intro v hv; rw [arith_eq_zero_iff] at hv; subst hv; simp
+  · intro r hr; cases r <;> simp_all [zeroDivisor, badDivisor]
+
+/-- PARTIAL. The same for "a division by zero or by a non-constant": a protected division whose
+divisor does not simplify to a non-zero literal leaves a division with such a divisor. -/
+theorem div_preserved_nonconstant_partial (e : Exp (Ext K)) (h : ProtDiv badDivisor e) :
+    HasDivBy badDivisor (simplify e) := by
+  refine HasDivBy_simplify (p := badDivisor) ?_ (fun _ h => h) e h
+  intro v hv; rw [arith_eq_zero_iff] at hv; subst hv; simp
+
+/-- The defect: `0 * (x / 0)`, `0 and (1 / x)`, `1 or (x / 0)` all contain a bad division and
+simplify to a literal. -/
+theorem div_erased_counterexample :
+    ∃ e : Exp (Ext K), HasDivBy zeroDivisor e ∧ ¬ HasDivBy zeroDivisor (simplify e) ∧
+      ¬ ProtDiv zeroDivisor e := by
+  refine ⟨.bin .mul (.num (.fin 0)) (.bin .div (.var "x") (.num (.fin 0))), ?_, ?_, ?_⟩
+  · simp [HasDivBy, zeroDivisor]
+  · simp [simplify, mulCore, divCore, isNumEq, HasDivBy]
+  · simp [ProtDiv, simplify, isNumEq]
+
+theorem div_erased_counterexample_and :
+    ∃ e : Exp (Ext K), HasDivBy badDivisor e ∧ ¬ HasDivBy badDivisor (simplify e) ∧
+      ¬ ProtDiv badDivisor e := by
+  refine ⟨.bin .and (.num (.fin 0)) (.bin .div (.num (.fin 1)) (.var "x")), ?_, ?_, ?_⟩
+  · simp [HasDivBy, badDivisor]
+  · simp [simplify, naryCore, naryFlatten, naryScan, numTruthy, divCore, isNumEq, HasDivBy]
+  · simp [ProtDiv, simplify, isLit, absorbing, numTruthy]
+
+theorem div_erased_counterexample_or :
+    ∃ e : Exp (Ext K), HasDivBy zeroDivisor e ∧ ¬ HasDivBy zeroDivisor (simplify e) ∧
+      ¬ ProtDiv zeroDivisor e := by
+  refine ⟨.or [.num (.fin 1), .bin .div (.var "x") (.num (.fin 0))], ?_, ?_, ?_⟩
+  · simp [HasDivBy, HasDivByList, zeroDivisor]
+  · simp [simplify, naryCore, naryFlatten, naryScan, numTruthy, divCore, isNumEq, HasDivBy]
+  · simp [ProtDiv, simplify, isLit, absorbing, numTruthy]
+
+/-- non-vacuity of `div_preserved_partial`: `2 * (x / (1 - 1)) + 0` has a protected division whose
+divisor only becomes the literal zero after folding, and it survives. -/
+example : ProtDiv zeroDivisor
+    (.bin .add (.bin .mul (.num (.fin 2)) (.bin .div (.var "x")
+      (.bin .sub (.num (.fin 1)) (.num (.fin 1))))) (.num (.fin 0)) : Exp (Ext K)) := by
+  simp [ProtDiv, simplify, subCore, divCore, isNumEq, zeroDivisor]
 
 end Rooc.Props.C10
